@@ -177,7 +177,13 @@ def run_case(ns, mon, c):
         extra_t = ns.Tensor(np.asarray(extra, dtype=[np.int64, np.int32][int(rng.integers(2))]))
     if op == "bce_with_logits":
         extra = (rng.uniform(0, 1, x.shape) if c["tclass"] == "prob" else rng.integers(0, 2, x.shape).astype(np.float64)).astype(dt)
-        extra_t = ns.Tensor(extra.copy(), requires_grad=bool(c["seed"] % 2))       # soft targets may be learnable: their gradient is -x * upstream
+        if c["tclass"] == "hard01" and c["seed"] % 3 == 2:
+            # hard labels as they come out of a data pipeline: a mask / label array of a small integer type or bool
+            idt = ["uint8", "bool", "int8", "int16", "int64", "uint16"][(c["seed"] // 3) % 6]
+            extra_t = ns.Tensor(extra.astype(idt))
+            counters_idt = idt
+        else:
+            extra_t = ns.Tensor(extra.copy(), requires_grad=bool(c["seed"] % 2))       # soft targets may be learnable: their gradient is -x * upstream
         extra = extra.astype(np.float64)
     sig = f"{op}.{c['form']}"
     if c["seed"] % 3 == 0:
@@ -263,6 +269,8 @@ def run_case(ns, mon, c):
     judge("value", out.data, val)
     if grad is not None:
         judge("gradient", grad, gr, gscale=max(1.0, float(np.max(np.abs(g64)))))
+        if op == "bce_with_logits" and extra_t.data.dtype.kind != "f":
+            counters["integer_or_bool_targets"] = 1
         if op == "bce_with_logits" and extra_t.requires_grad:
             red = c["reduction"] if c["form"] == "module" else "none"
             gt_want = -x64 * (g64 / x64.size if red == "mean" else g64)
